@@ -166,11 +166,18 @@ func (s *Scanner) Length() uint {
 		panic("Method not allowed")
 	}
 	var length uint
+	hasValue := false
 	for {
 		lex, ok := s.Next()
 		if !ok {
 			break
 		}
+
+		if lex.Type() == lexeme.NewLine && !hasValue {
+			// Line breaks and user comments before the schema aren't a schema.
+			continue
+		}
+		hasValue = true
 
 		if lex.Type() == lexeme.EndTop {
 			// Found character after the end of the schema and spaces.
